@@ -128,6 +128,40 @@ DEEP_WALKS = [
 ]
 
 
+SEC_BYTES_OPTS = dict(SEC_BYTES)
+SEC_BYTES_OPTS.update({'.change': b'#.change: encoding=utf-8\n', '..file': b'#..file: k=v\n'})
+
+
+def ob_repeat(ctx, W):
+    """a header (with its content) that was already accepted earlier in the same file is repeated verbatim"""
+    import ref.spec as S
+    from pydiffx.reader import DiffXReader
+    from pydiffx.errors import DiffXParseError
+    walk = ctx.pick('walk', [w for w in W if w])
+    i = ctx.choose(0, len(walk) - 1, 'repeat')
+    table = SEC_BYTES_OPTS if ctx.choose(0, 1, 'container-options') else SEC_BYTES
+    data = b''.join(table[s] for s in walk) + table[walk[i]]
+    allowed = S.may_follow(walk[-1], walk[i])
+    wit = lambda m: {'kind': 'next', 'walk': walk, 'data': data, 'header_id': walk[i].encode()}
+    it = iter(DiffXReader(SymStream(data)))
+    try:
+        for s in walk:
+            next(it)
+    except Exception as e:
+        return viol('valid-prefix-rejected', dict(wit(None), error=str(e)))
+    try:
+        next(it)
+        acc = True
+    except DiffXParseError:
+        acc = False
+    except StopIteration:
+        return viol('header-ignored', wit(None))
+    except Exception as e:
+        return viol('raised:%s' % type(e).__name__, wit(None))
+    return verdict(ctx, [('accepted-but-not-allowed' if acc else 'rejected-but-allowed', acc == allowed)], witness=wit,
+                   sample=lambda m: dict(wit(m), outcome='accept' if acc else 'reject'))
+
+
 def obligations(tier):
     quick = tier == 'quick'
     W = walks(4 if quick else 6)
@@ -140,6 +174,9 @@ def obligations(tier):
                   desc='real reader on every valid walk of the hierarchy up to %d sections followed by a header with '
                        'symbolic name (3..8 bytes) and 0..4 dots: accepted <=> allowed by REF_HIER' % (4 if quick else 6),
                   bounds={'walks': len(W), 'max_walk': 4 if quick else 6, 'name_len': [3, 8], 'dots': [0, 4]}))
+    obs.append(Ob('repeated-header', ob_repeat, dict(W=W), must_reach=['DiffXReader.iter_sections'],
+                  desc='every valid walk followed by a verbatim copy of any section already in it (with and without options '
+                       'on the containers): accepted <=> allowed', bounds={'walks': len(W)}))
     return obs
 
 
